@@ -128,6 +128,10 @@ func Start(id, level string) *Run {
 		inconclusive: map[string]int64{},
 	}
 	r.loadKnown()
+	if replay == "" {
+		// witnesses of earlier runs must not be mistaken for this run's
+		_ = os.RemoveAll(filepath.Join(root, "replay", id))
+	}
 	return r
 }
 
